@@ -100,6 +100,17 @@ theorem spells_take {toks : List Str} {t : Val} {p : Pos} {c : Val} (h : Spells 
 
 /-! ### the deletion through the parent reference -/
 
+/-- a path that does not start with '?' is taken as it is by `delete` / `pop` (fix C05-c) -/
+theorem stripQ_noQ (xp : Str) (h : startsWith xp ['?'] = false) : stripQ xp = xp := by
+  simp [stripQ, h]
+
+/-- … and a leading '?' is dropped -/
+theorem stripQ_q (xp : Str) : stripQ ('?' :: xp) = xp := by
+  simp [stripQ, startsWith]
+
+theorem stripQ_slash (s : Str) : stripQ (slash ++ s) = slash ++ s :=
+  stripQ_noQ _ (by simp [slash, startsWith])
+
 theorem startsWith_bracket (s : Str) : startsWith (bracket s) ['['] = true := by
   simp [bracket, startsWith, startsWith_nil]
 
